@@ -4,8 +4,9 @@ CONSTANTS
   Copy = "pooled"
   Unbinder = "poplast"
   PadFix = TRUE
+  Lock = "held"
 INIT Init
 NEXT Next
-INVARIANTS TypeOK ModelEachBoundOnce ModelNoneAfterUnbind ModelRewritten ModelRestUnchanged ModelCallerUntouched 
+INVARIANTS TypeOK ModelEachBoundOnce ModelNoneAfterUnbind ModelRewritten ModelRestUnchanged ModelCallerUntouched ModelLinearizable ModelOverlapRewritten 
 
 CHECK_DEADLOCK FALSE
